@@ -1,6 +1,7 @@
 package main
 
 import (
+	"reflect"
 	"encoding/hex"
 	"encoding/json"
 	"fmt"
@@ -144,6 +145,9 @@ func genSwListOp(r *Rng, k string) Op {
 func genHistOp(r *Rng, obj string) Op {
 	switch obj {
 	case "comp":
+		if r.Chance(1, 10) {
+			return Op{K: "sibling"} // copy-then-customise: a plain struct copy of the component is kept aside
+		}
 		k := histCompOps[r.Intn(len(histCompOps))]
 		op := Op{K: k}
 		switch k {
@@ -165,6 +169,9 @@ func genHistOp(r *Rng, obj string) Op {
 	if r.Chance(1, 16) {
 		return Op{K: "swslice", A: r.Intn(4)}
 	}
+	if r.Chance(1, 20) {
+		return Op{K: "fork"} // template idiom: next := *claims, kept aside
+	}
 	if r.Chance(1, 12) {
 		return Op{K: "swedit", A: r.Intn(4), B: r.Intn(3), S: textPool[r.Intn(len(textPool))], X: r.Bytes(hashLens[r.Intn(3)])}
 	}
@@ -173,6 +180,9 @@ func genHistOp(r *Rng, obj string) Op {
 	switch k {
 	case "cid":
 		op.A = int(int32(r.U64()))
+		if r.Chance(1, 4) {
+			op.A = []int{0, 1, -1, 2147483647, -2147483648}[r.Intn(5)]
+		}
 	case "lc":
 		op.A = int(genHistLifecycle(r))
 	case "impl", "seed", "nonce":
@@ -695,9 +705,44 @@ func execHistClaims(res *Result, t *Trace, obj string, start *ClaimsDesc) {
 		res.Probes["decoded_start_state"]++
 		startValid = safely(func() string { return ec(c.Validate()) }) == "ok"
 	}
+	// struct copies of the claims-set taken along the way (next := *claims): the pointer-replacing
+	// setters leave them alone (the component container is shared by such a copy, so the component
+	// claim is left out of the comparison)
+	type fork struct {
+		c   psatoken.IClaims
+		obs string
+		at  int
+	}
+	var forks []*fork
+	forkObs := func(c psatoken.IClaims) string {
+		l := getterList(c)
+		var keep []string
+		for j, e := range l {
+			if j != claimIndex("sw") {
+				keep = append(keep, e)
+			}
+		}
+		return strings.Join(keep, ";")
+	}
 	for i, op := range t.Ops {
 		res.OpsRun++
 		res.Steps++
+		if op.K == "fork" {
+			func() {
+				defer func() { _ = recover() }()
+				v := reflect.ValueOf(c)
+				if v.Kind() != reflect.Ptr || v.IsNil() {
+					return
+				}
+				n := reflect.New(v.Elem().Type())
+				n.Elem().Set(v.Elem())
+				if fc, ok := n.Interface().(psatoken.IClaims); ok {
+					forks = append(forks, &fork{c: fc, obs: forkObs(fc), at: i})
+					res.Probes["claims_struct_copies"]++
+				}
+			}()
+			continue
+		}
 		if op.K == "rebuild" {
 			// order / repetition independence: last successful call per claim on a fresh object
 			fresh, err := newHistClaims(obj, start)
@@ -793,6 +838,12 @@ func execHistClaims(res *Result, t *Trace, obj string, start *ClaimsDesc) {
 		}
 		afterS := structObs(c)
 		after := fullObs(c)
+		for _, fk := range forks {
+			if now := forkObs(fk.c); now != fk.obs {
+				res.violate("C11", "setter-writes-through-shared-pointer", obj+"."+op.K, i, "a struct copy of the claims-set taken at step %d changed when %s was called on the original:\n was: %s\n now: %s", fk.at, op.K, fk.obs, now)
+				fk.obs = now
+			}
+		}
 		if err != nil && beforeS != afterS {
 			// a failed setter that rewrote an exported field (reported by the before/after comparison below)
 			before += "|struct=" + beforeS
@@ -943,9 +994,24 @@ func execHistComp(res *Result, t *Trace) {
 		}
 		return nil, false
 	}
+	// struct copies of the component taken along the way (b := a): the pointer-replacing setters
+	// leave them alone
+	type sibling struct {
+		c    psatoken.SwComponent
+		obs  string
+		at   int
+	}
+	var siblings []*sibling
 	for i, op := range t.Ops {
 		res.OpsRun++
 		res.Steps++
+		if op.K == "sibling" {
+			sb := &sibling{c: *c, at: i}
+			sb.obs = obsComp(&sb.c)
+			siblings = append(siblings, sb)
+			res.Probes["component_struct_copies"]++
+			continue
+		}
 		if op.K == "rebuild" {
 			fresh := &psatoken.SwComponent{}
 			var ks []string
@@ -978,6 +1044,12 @@ func execHistComp(res *Result, t *Trace) {
 		}
 		after := obsComp(c)
 		res.Evals++
+		for _, sb := range siblings {
+			if now := obsComp(&sb.c); now != sb.obs {
+				res.violate("C11", "setter-writes-through-shared-pointer", "component."+op.K, i, "a struct copy of the component taken at step %d changed when %s was called on the original:\n was: %s\n now: %s", sb.at, op.K, sb.obs, now)
+				sb.obs = now
+			}
+		}
 		res.shapeAcc += op.K + okOrErr(err) + ","
 		acc := compAccepts(op)
 		if acc {
